@@ -45,11 +45,14 @@ fn check_field(line: &[u8]) -> Option<String> {
 }
 /// several field lines in one head: the head is accepted iff every line is within the grammar, and then the fields are
 /// exactly the lines' fields in order -- a line is never folded into its neighbour, skipped or repaired
-fn check_fields(lines: &[&[u8]]) -> Option<String> {
+fn check_fields(lines: &[&[u8]]) -> Option<String> { check_fields_lf(lines, 0) }
+/// `lfmask` bit i: line i (not the last one) ends with a bare LF instead of CRLF -- a line ends at every LF (one CR before
+/// it dropped), so the fields are the same
+fn check_fields_lf(lines: &[&[u8]], lfmask: u32) -> Option<String> {
     let mut head = b"M / HTTP/1.1\r\n".to_vec();
-    for l in lines { head.extend_from_slice(l); head.extend_from_slice(b"\r\n"); }
+    for (i, l) in lines.iter().enumerate() { head.extend_from_slice(l); head.extend_from_slice(if i + 1 < lines.len() && (lfmask >> i) & 1 == 1 { b"\n" } else { b"\r\n" }); }
     head.extend_from_slice(b"\r\n");
-    let desc = format!("fields lines={}", lines.iter().map(|l| hex(l)).collect::<Vec<_>>().join(","));
+    let desc = if lfmask == 0 { format!("fields lines={}", lines.iter().map(|l| hex(l)).collect::<Vec<_>>().join(",")) } else { format!("fields lines={} lfmask={lfmask}", lines.iter().map(|l| hex(l)).collect::<Vec<_>>().join(",")) };
     let want: Result<Vec<(Vec<u8>, Vec<u8>)>, ()> = lines.iter().map(|l| ref_field(l)).collect();
     match try_read(&head) {
         Err(()) => Some(format!("{desc} expected={} actual=panic", if want.is_ok() { "accepted" } else { "MalformedHeader" })),
@@ -135,7 +138,8 @@ fn main() {
         if w.starts_with("fields ") {
             let ls: Vec<Vec<u8>> = w.split("lines=").nth(1).unwrap().split(' ').next().unwrap().split(',').map(unhex).collect();
             let refs: Vec<&[u8]> = ls.iter().map(|l| l.as_slice()).collect();
-            match check_fields(&refs) { Some(m) => { println!("WITNESS {m}"); std::process::exit(1) } None => { println!("OK witness no longer fails"); std::process::exit(0) } }
+            let mask: u32 = w.split("lfmask=").nth(1).and_then(|x| x.split(' ').next()).and_then(|x| x.parse().ok()).unwrap_or(0);
+            match check_fields_lf(&refs, mask) { Some(m) => { println!("WITNESS {m}"); std::process::exit(1) } None => { println!("OK witness no longer fails"); std::process::exit(0) } }
         }
         let line = unhex(w.split("line=").nth(1).unwrap().split(' ').next().unwrap());
         let r = if w.starts_with("field") { check_field(&line) } else { check_request(&line) };
@@ -167,7 +171,8 @@ fn main() {
     let pool: [&[u8]; 13] = [b"a: 1", b"b:2", b"x-long: v w", b" a: 1", b"\ta: 1", b" ", b"\t", b" \t ", b"nocolon", b":v", b"a :1", b"a: \x80", b"A-b_c: ok "];
     for l1 in pool { for l2 in pool {
         n += 1; if let Some(m) = check_fields(&[l1, l2]) { if found.len() < 6 { found.push(m) } }
-        for l3 in [&b"z: 9"[..], b" cont"] { n += 1; if let Some(m) = check_fields(&[l1, l2, l3]) { if found.len() < 6 { found.push(m) } } }
+        n += 1; if let Some(m) = check_fields_lf(&[l1, l2], 1) { if found.len() < 6 { found.push(m) } }
+        for l3 in [&b"z: 9"[..], b" cont"] { for mask in 0..4u32 { n += 1; if let Some(m) = check_fields_lf(&[l1, l2, l3], mask) { if found.len() < 6 { found.push(m) } } } }
     }}
     // whole heads through read_http_head: unsplit, every 2-way split, byte at a time, and (thorough) every 3-way split
     for hi in 0..3usize {
